@@ -26,7 +26,8 @@ def sh(cmd, cwd=None, env=None, timeout=3000):
 
 ROOT = os.environ.get("SEED_ROOT", "/tmp/seed")
 # round 2 (SEED_ROOT=/tmp/seed2): the agents' A/B are stored as C/D
-RENAME = {"A": "C", "B": "D"} if ROOT.rstrip("/").endswith("seed2") else {"A": "A", "B": "B", "C": "C", "D": "D"}
+RENAME = ({"A": "C", "B": "D"} if ROOT.rstrip("/").endswith("seed2") else
+          {"A": "E", "B": "F"} if ROOT.rstrip("/").endswith("seed3") else {"A": "A", "B": "B", "C": "C", "D": "D"})
 
 
 def confirm(pid, x):
@@ -67,33 +68,78 @@ def confirm(pid, x):
     return 0
 
 
+def scratch_worktree(name):
+    """fresh scratch worktree of /repo's HEAD outside /repo and /verif; the caller removes it with drop_worktree"""
+    wt = "/tmp/vwt/" + name
+    sh(["git", "-C", "/repo", "worktree", "remove", "--force", wt])
+    os.makedirs("/tmp/vwt", exist_ok=True)
+    rc, o = sh(["git", "-C", "/repo", "worktree", "add", "--detach", wt, "HEAD"])
+    if rc != 0:
+        raise RuntimeError("worktree: " + o)
+    return wt
+
+
+def drop_worktree(wt):
+    sh(["git", "-C", "/repo", "worktree", "remove", "--force", wt])
+    sh(["git", "-C", "/repo", "worktree", "prune"])
+
+
+def apply_patch(wt, patch):
+    rca, oa = sh(["git", "apply", patch], cwd=wt)
+    if rca != 0:
+        rca, oa = sh("patch -p1 --fuzz=3 --no-backup-if-mismatch < %s" % patch, cwd=wt)
+    return rca, oa
+
+
+def check_lines(o):
+    return [l for l in o.strip().split("\n") if l.startswith(("VIOLATION", "KNOWN", "OK", "FAIL", "INFRA"))]
+
+
 def run_wt(pid, x, prop=None, tier="quick"):
-    """same as run but against the scratch worktree /tmp/seed/<pid> through PYREALB_REPO (used while other work is
-    going on in /repo); the final record is made with `run`"""
+    """same as run but against a fresh scratch worktree of /repo's HEAD through PYREALB_REPO (used while other work is
+    going on in /repo); the worktree is removed afterwards"""
     prop = prop or pid
     dst = os.path.join(VERIF, "seeded", "%s-%s" % (pid, x))
-    wt = ("/tmp/seed2/" if x in ("C", "D") and os.path.isdir("/tmp/seed2/" + pid) else "/tmp/seed/") + pid
-    sh("git checkout -- .", cwd=wt)
-    # bring the scratch worktree to /repo's current HEAD (fix: commits may have landed since the seed was written)
-    rc0, head = sh(["git", "-C", "/repo", "rev-parse", "HEAD"])
-    sh(["git", "checkout", "-q", "--detach", head.strip()], cwd=wt)
-    rca, oa = sh(["git", "apply", os.path.join(dst, "patch.diff")], cwd=wt)
-    if rca != 0:
-        rca, oa = sh("patch -p1 --fuzz=3 --no-backup-if-mismatch < %s" % os.path.join(dst, "patch.diff"), cwd=wt)
-    if rca != 0:
-        print("patch does not apply:", oa)
-        sh("git checkout -- .", cwd=wt)
-        return 2
+    wt = scratch_worktree("%s-%s-%s" % (pid, x, prop))
     try:
+        rca, oa = apply_patch(wt, os.path.join(dst, "patch.diff"))
+        if rca != 0:
+            print("patch does not apply:", oa)
+            return 2
         rc, o = sh([os.path.join(VERIF, "check"), prop, "--tier", tier], cwd=VERIF, timeout=3600, env={"PYREALB_REPO": wt})
     finally:
-        sh("git checkout -- .", cwd=wt)
-    tail = [l for l in o.strip().split("\n") if l.startswith(("VIOLATION", "KNOWN", "OK", "FAIL", "INFRA"))]
+        drop_worktree(wt)
+    tail = check_lines(o)
     print("\n".join(tail[-6:]))
     meta = json.load(open(os.path.join(dst, "meta.json")))
     viol = [l for l in tail if l.startswith("VIOLATION")]
     meta["checks"][prop + ":" + tier] = {"exit": rc, "caught": rc == 1 and bool(viol), "lines": tail[-4:], "via": "PYREALB_REPO=scratch worktree"}
     json.dump(meta, open(os.path.join(dst, "meta.json"), "w"), indent=1, ensure_ascii=False)
+    return 0
+
+
+def benign(name, props=None, tier="quick"):
+    """behaviour-preserving change benign/<name>/patch.diff: every check must stay quiet (exit 0, no VIOLATION)"""
+    dst = os.path.join(VERIF, "benign", name)
+    claimed = json.load(open(os.path.join(VERIF, "harness", "claimed.json")))
+    props = props or claimed
+    wt = scratch_worktree("benign-" + name)
+    meta = json.load(open(os.path.join(dst, "meta.json")))
+    meta.setdefault("checks", {})
+    try:
+        rca, oa = apply_patch(wt, os.path.join(dst, "patch.diff"))
+        if rca != 0:
+            print("patch does not apply:", oa)
+            return 2
+        for prop in props:
+            rc, o = sh([os.path.join(VERIF, "check"), prop, "--tier", tier], cwd=VERIF, timeout=3600, env={"PYREALB_REPO": wt})
+            tail = check_lines(o)
+            viol = [l for l in tail if l.startswith("VIOLATION")]
+            meta["checks"][prop + ":" + tier] = {"exit": rc, "quiet": rc == 0 and not viol, "lines": [l for l in tail if not l.startswith("KNOWN")][-3:]}
+            print(name, prop, "rc=%d" % rc, "quiet" if rc == 0 and not viol else "ALARM", " | ".join(viol)[:300])
+            json.dump(meta, open(os.path.join(dst, "meta.json"), "w"), indent=1, ensure_ascii=False)
+    finally:
+        drop_worktree(wt)
     return 0
 
 
@@ -128,5 +174,7 @@ if __name__ == "__main__":
         sys.exit(confirm(sys.argv[2], sys.argv[3]))
     if cmd == "run":
         sys.exit(run(sys.argv[2], sys.argv[3], *(sys.argv[4:])))
+    if cmd == "benign":
+        sys.exit(benign(sys.argv[2], sys.argv[3].split(",") if len(sys.argv) > 3 else None))
     if cmd == "runwt":
         sys.exit(run_wt(sys.argv[2], sys.argv[3], *(sys.argv[4:])))
